@@ -453,7 +453,8 @@ func (ex *Exec) nameLookup(st *State, pos token.Pos) func(string) (Val, bool) {
 			if o.Parent() == o.Pkg().Scope() {
 				return ex.globalVar(st, o), true
 			}
-			return nil, false
+			// a local that is not (yet) defined on this path: specifications see its zero value
+			return zeroVal(kindOf(o.Type())), true
 		case *types.Const:
 			return constVal(o.Val(), o.Type()), true
 		}
@@ -1416,6 +1417,11 @@ func (ex *Exec) ghostAsserts(states []*State, anchor string, pos token.Pos, node
 				ce.lookup = func(name string) (Val, bool) {
 					if name == "result" && len(ret) > 0 {
 						return ret[0], true
+					}
+					for i := range ret {
+						if name == fmt.Sprintf("result%d", i) {
+							return ret[i], true
+						}
 					}
 					return base(name)
 				}
